@@ -76,7 +76,14 @@ _re_error = regex.compile(r'''
         |
             '(?>(?>''|[^\?!*\/\[\]':"])+)'
         )!
-    )?(?P<name>\#(?>NULL!|DIV/0!|VALUE!|REF!|NUM!|NAME\?|N/A))\s*
+    )?(?P<name>\#(?>NULL!|DIV/0!|VALUE!|REF!|NUM!|NAME\?|N/A))
+    (?>(?<=\#REF!)(?>  # Reference into a deleted sheet (e.g., `#REF!$A$1:B2`).
+        \$?[A-Z]{1,3}\$?[0-9]{1,7}(?>:\$?[A-Z]{1,3}\$?[0-9]{1,7})?
+    |
+        \$?[A-Z]{1,3}:\$?[A-Z]{1,3}
+    |
+        \$?[0-9]{1,7}:\$?[0-9]{1,7}
+    )(?![\w\.\(]))?\s*
 ''', regex.IGNORECASE | regex.X | regex.DOTALL)
 
 
